@@ -868,6 +868,14 @@ impl Sim {
                 let same = same_content(&self.slots[a].model, &self.slots[b].model);
                 if r.0 {
                     self.probes.hit("eq_true");
+                    let linked = match self.link {
+                        Some((x, vx, y, vy)) => (x == a && y == b && vx == self.versions[a] && vy == self.versions[b]) || (x == b && y == a && vx == self.versions[b] && vy == self.versions[a]),
+                        None => false,
+                    };
+                    if !linked && !self.slots[a].model.ents.is_empty() {
+                        // Equal although neither is an unmodified copy of the other.
+                        self.probes.hit("eq_true_after_separate_histories");
+                    }
                     if let Err(e) = same {
                         return Err(viol("C16", "eq-true-but-different", format!("worlds compare equal but differ: {e}")));
                     }
